@@ -93,6 +93,11 @@ func (curve sm2P256Curve) Params() *elliptic.CurveParams {
 func (curve sm2P256Curve) IsOnCurve(X, Y *big.Int) bool {
 	var a, x, y, y2, x3 sm2P256FieldElement
 
+	// coordinates are field elements: without this (X+P, Y) or (X-P, Y) would pass as an alias of (X, Y),
+	// and callers go on to use the unreduced integers (key exchange x-hat, hashed coordinates)
+	if X.Sign() < 0 || X.Cmp(curve.P) >= 0 || Y.Sign() < 0 || Y.Cmp(curve.P) >= 0 {
+		return false
+	}
 	sm2P256FromBig(&x, X)
 	sm2P256FromBig(&y, Y)
 
